@@ -16,7 +16,7 @@ import warnings
 
 import numpy as np
 
-from .. import cases, facts, unictlgen
+from .. import cases, facts, unictlgen, utilsgen
 from .. import lifecycle as L
 from ..core import REPO
 
@@ -1209,6 +1209,17 @@ def _run(ctx):
              'from_dict_scipy) for all states and inputs')
     ctx.copy_src('Props/C19.v')
     ctx.compile(['Gen_c19facts.v', 'Gen_unictl.v', 'C19.v'])
+    # third tie: copulas/utils.py (get_instance, get_qualified_name, store_args, check_valid_values) translated statement by statement
+    # (Gen_utils.v) and proved equal to Model.Lifecycle in Props/C19_utils.v (C19u_bridge_*); independent of the files above
+    statusz = utilsgen.generate(ctx)
+    for k in utilsgen.PARTS:
+        ctx.obligation(f'translate:{k}', statusz.get(k, 'not attempted') is None, 'translation', statusz.get(k) or '')
+    ctx.rule('translation: utils.get_instance / get_qualified_name / store_args / check_valid_values and the list of family classes whose '
+             '__init__ carries @store_args are translated from the AST on every run into Gen_utils.v (strict shape check, fail-closed); '
+             'C19u_bridge_* prove them equal to Model.Lifecycle (get_instance_u incl. every failure of the name resolution, fqn, the '
+             's_stored clause of new_scipy, the validation prefix of fit_gm) for all inputs; C19u_refused_table_leaves_model, '
+             'C19u_get_instance_unfitted, C19u_get_instance_replays_constructor, C19u_qualified_name_resolves are stated on the generated functions')
+    utilsgen.compile_props(ctx)
     ctx.rule('correspondence: random histories (3..8 events: fit 42% / query 40% (cdf,pdf,ppf,logpdf,sample[,partial]) / to_dict 11% / '
              'get_instance 7%) per object configuration: 8 ScipyModel families (default, seeded; TruncatedGaussian without/with one/both '
              'bounds; GaussianKDE with sample_size 1/5/8/30, bw_method scott/silverman/scalar/invalid, weights), Univariate wrapper '
@@ -1235,6 +1246,8 @@ def _run(ctx):
                     'table, the np.unique summary, scipy delegation, @random_state, get_instance / method resolution for from_dict) and the '
                     'shape-checking translator; the family hooks _fit / _fit_constant / _is_constant / _extract_constant, the _constant_* methods '
                     'and GaussianKDE\'s overrides stay hand-written in Model/Lifecycle.v',
+                    'tools/vf/utilsgen.py: the py_* vocabulary of Gen_utils.v (prototype kinds, name resolution = rsplit + import_module + getattr over '
+                    'the class table of the model, what @store_args leaves on an instance, the table summary with two dtype flags) and the translator',
                     'tools/vf/lifecycle.py: recorders at the scipy/numpy boundary, canonicalisation of observations, oracle tables',
                     'scipy/numpy results enter the model as table values (no claim about scipy itself)']
 
